@@ -3,7 +3,7 @@ CONSTANTS
   SetupIds = {1}
   RegIds = {1,2,3}
   FileIds = {1,2,3}
-  CliIds = {1}
+  CliIds = {1,2}
   SrvIds = {1,2}
   TrackObs = FALSE
   TrackDeps = FALSE
